@@ -254,7 +254,7 @@ CHECKS = {
         exhaustive_note="the whole configuration grid is enumerated on every run",
     ),
     "C11": dict(
-        min_counters=['scenarios_with_a_read_fault', 'followup_calls_checked', 'double_close_scenarios', 'slow_matcher_timeouts', 'wfail.scenarios', 'burst.datagrams', 'wblock.scenarios', 'lockheld.scenarios'],
+        min_counters=['scenarios_with_a_read_fault', 'followup_calls_checked', 'double_close_scenarios', 'slow_matcher_timeouts', 'wfail.scenarios', 'burst.datagrams', 'wblock.scenarios', 'lockheld.scenarios', 'closegated.scenarios'],
         title="Client calls always complete: timeout, cancellation, Close and cleanup",
         stages=[dict(name="grid", shards={"quick": 8, "thorough": 16}, timeout={"quick": 900, "thorough": 3600}),
                 dict(name="stress", run="TestStress", race=True, shards={"quick": 8, "thorough": 16}, timeout={"quick": 900, "thorough": 5400})],
